@@ -157,6 +157,11 @@ fn canonical(t: Ty<VI>) -> (Substitution<VI>, Canonical<Substitution<VI>>) {
 
 /// `new = K(new kids)`, `current = K'(current kids)`; one query per (K, K', leaf kinds).
 fn step(k_new: usize, ln: (usize, usize), k_cur: usize, lc: (usize, usize)) {
+    step_core(k_new, ln, k_cur, lc);
+    cover!(true);
+}
+
+fn step_core(k_new: usize, ln: (usize, usize), k_cur: usize, lc: (usize, usize)) {
     let kn = kids(ln.0, ln.1);
     let kc = kids(lc.0, lc.1);
     let new = mk_top(k_new, &kn);
@@ -184,7 +189,6 @@ fn step(k_new: usize, ln: (usize, usize), k_cur: usize, lc: (usize, usize)) {
             "C17: may_invalidate said no future answer can change the guidance, but the answer is not an instance of it"
         );
     }
-    cover!(true);
 }
 
 /// Both verdicts occur (the check is neither trivially "may invalidate" nor trivially "final").
@@ -212,6 +216,26 @@ fn step_leaf(ln: usize, lc: usize) {
     assert!(inval || inst, "C17: may_invalidate wrongly said the guidance is final");
     cover!(true);
 }
+
+/// Systematic rows (thorough tier): the same constructor `k` on both sides, the guidance's
+/// children of kinds `lc`, the candidate answer's first child of kind `ln0` and its second child
+/// of EVERY kind (ground / scalar / placeholder / bound variable).
+fn row(k: usize, lc: (usize, usize), ln0: usize) {
+    const KINDS: [usize; 4] = [0, 1, 2, 4];
+    let mut j = 0;
+    while j < 4 {
+        arena_reset();
+        step_core(k, (ln0, KINDS[j]), k, lc);
+        j += 1;
+    }
+    cover!(true);
+}
+macro_rules! rows {
+    ($($name:ident: $k:expr, $lc:expr, $ln0:expr;)*) => {$(
+        sharness!($name, 8, { row($k, $lc, $ln0) });
+    )*};
+}
+include!("/verif/harness/engine/c17_inval_rows.rs");
 
 macro_rules! steps {
     ($($name:ident: $kn:expr, $ln:expr, $kc:expr, $lc:expr;)*) => {$(
